@@ -635,6 +635,13 @@ class Lane(LaneBase):
                     except Exception:  # noqa: BLE001
                         pass
         lines, out, oracle, tags = [], [], [], set()
+        if case['seed'] % 3 == 0:
+            # every export is taken and vandalised twice (first from whatever the caches hold, then from warm caches): the
+            # exports used for the round trips below must still describe the graph
+            from harness import gen as _gen
+            _gen.export_abuse(g)
+            _gen.export_abuse(g)
+            tags.add('exports-vandalised-first')
         names, di, un, other = parts(g)
         cyc = not acyclic(di)
         x = self.export_checks(g, lines, out, oracle, tags)
